@@ -78,7 +78,7 @@ static Report run_case(const Case & c, bool text) {
     if (line.size() < 2) continue;
     std::string rest = line.substr(2);
     switch (line[0]) {
-      case 'V': { r.verdict = atoi(rest.c_str()); size_t sp = rest.find(' '); r.msg = sp == std::string::npos ? "" : rest.substr(sp + 1); break; }
+      case 'V': { if (r.verdict >= 0) break; r.verdict = atoi(rest.c_str()); size_t sp = rest.find(' '); r.msg = sp == std::string::npos ? "" : rest.substr(sp + 1); break; }
       case 'H': r.hash = rest; break;
       case 'N': r.nontrivial = rest[0] == '1'; break;
       case 'C': { std::istringstream ls(rest); std::string l; while (ls >> l) r.labels.push_back(l); break; }
